@@ -1130,11 +1130,13 @@ def main(tier, replay=None):
                 outs[i] = l
     # 5. the model
     mlines, mids = [], []
-    for i, c in enumerate(cases):
-        ml = model_lines(c) if drv else None
-        if ml:
+    cand = [i for i, c in enumerate(cases) if drv and model_lines(c)]
+    cap = 40000 if quick else 120000          # the extracted model computes on unary-binary positives: keep its share bounded
+    stride = max(1, -(-len(cand) // cap))
+    for j, i in enumerate(cand):
+        if j % stride == 0:
             mids.append(i)
-            mlines += ml
+            mlines += model_lines(cases[i])
     mout = None
     if drv and mlines:
         rc, mo, merr = vf.run_lines(drv, "".join(l + "\n" for l in mlines), timeout=1500)
@@ -1233,6 +1235,8 @@ def main(tier, replay=None):
                        "call on distinct objects and on the aliased objects; non-trivial = at least two positions coincide; "
                        "distinct = (domain, modulus, op, partition, values)")
     chk.cov["traces_validated_against_impl"] = ncorr
+    chk.cov["model_covered_cases"] = len(cand)
+    chk.cov["model_stride"] = stride
     chk.cov["distribution_by_domain"] = dist_dom
     chk.cov["distribution_by_pattern"] = dist_pat
     chk.cov["operations"] = {"ring": len(RING_OPS), "Integer": len(Z_OPS), "Rational": len(Q_OPS)}
